@@ -1247,7 +1247,13 @@ class Evaluator(object):
         a = [x.rat if isinstance(x, CallV) else x for x in a]
         num = all(isinstance(x, Rat) for x in a)
         if mod in ('math', 'numpy', 'cmath') and num and short in MATH1 and len(a) == 1:
-            return alg.define(MATH1[short](a[0]))
+            res = MATH1[short](a[0])
+            if short in ('sqrt', 'acos', 'asin', 'arccos', 'arcsin'):
+                # remembered for the conditioning rule: which program construct produced this inverse-function generator
+                MATH_CALLS.append((self._stack[-1] if self._stack else None, short, node, a[0], res))
+                if len(MATH_CALLS) > 20000:
+                    del MATH_CALLS[:10000]
+            return alg.define(res)
         if mod in ('math', 'numpy') and num and short in ('atan2', 'arctan2') and len(a) == 2:
             return alg.atan2(a[0], a[1])
         if mod in ('math', 'numpy') and num and short in ('pow', 'power') and len(a) == 2:
@@ -1784,6 +1790,8 @@ class _ModuleScope(object):
 
 
 COND_NAMES = {'lt', 'le', 'gt', 'ge', 'eq', 'ne', 'and', 'or', 'not', 'in', 'notin', 'truthy', 'isinstance'}
+
+MATH_CALLS = []     # (function, name, call node, argument form, result form) of sqrt / acos / asin calls met by any evaluator
 
 MATH1 = {
     'sin': alg.sin, 'cos': alg.cos, 'tan': alg.tan, 'sinh': alg.sinh, 'cosh': alg.cosh, 'tanh': alg.tanh,
